@@ -343,12 +343,16 @@ func (server *SugarDB) getState() map[int]map[string]interface{} {
 		}
 	}
 	data := make(map[int]map[string]interface{})
+	// Read-only commands (and expiry of keys inside them) do not take part in the
+	// copy/mutation handshake above, so the store must be locked while it is iterated.
+	server.storeLock.RLock()
 	for db, store := range server.store {
 		data[db] = make(map[string]interface{})
 		for k, v := range store {
 			data[db][k] = v
 		}
 	}
+	server.storeLock.RUnlock()
 	server.stateCopyInProgress.Store(false)
 	return data
 }
